@@ -3,7 +3,7 @@
 From Coq Require Import List ZArith Bool QArith.
 From Coq.Strings Require Import Byte.
 Import ListNotations.
-From SV Require Import Text C04_PySlice C04_Model C04_Lemmas.
+From SV Require Import Text C04_PySlice C04_Model C04_Lemmas C04_Str C04_Store.
 Local Open Scope Z_scope.
 
 (* ---- pyslice_spec: CPython slice normalisation, for every list, every bound in Z or None ---- *)
@@ -295,6 +295,245 @@ Theorem C04_gc_fraction : forall s,
 Proof. exact gc_fraction_spec. Qed.
 Print Assumptions C04_gc_fraction.
 
+(* ==== round 6: the .str methods with pure list semantics, as list functions ==== *)
+
+(* lower / upper / swapcase on ASCII: pointwise maps, lengths kept, swapcase an involution, fixed points of islower/isupper *)
+Theorem C04_str_case : forall s,
+  length (py_lower s) = length s /\ length (py_swapcase s) = length s /\
+  py_swapcase (py_swapcase s) = s /\ py_lower (py_lower s) = py_lower s /\ py_upper (py_lower s) = py_upper s /\
+  py_lower (py_upper s) = py_lower s /\ py_lower (py_swapcase s) = py_lower s /\
+  (py_islower s = true -> py_lower s = s) /\ (py_isupper s = true -> py_upper s = s) /\
+  py_isupper s && py_islower s = false /\
+  (forall i, nth_error (py_lower s) i = option_map ascii_lower (nth_error s i)) /\
+  (forall i, nth_error (py_swapcase s) i = option_map ascii_swap (nth_error s i)) /\
+  (forall c, ascii_swap c = if is_upper c then ascii_lower c else if is_lower c then ascii_upper c else c).
+Proof. exact str_case_spec. Qed.
+Print Assumptions C04_str_case.
+
+(* the start/end arguments of count, find, index, startswith, ... select the Python slice s[a:b] *)
+Theorem C04_str_window : forall s a b,
+  window s None None = Some (0, s) /\
+  (forall st w, window s a b = Some (st, w) ->
+     getslice s (mkslice a b None) = Ok w /\ 0 <= st /\ st + Z.of_nat (length w) <= Z.of_nat (length s) /\
+     st = adj_start (Z.of_nat (length s)) a) /\
+  (window s a b = None -> adj_end (Z.of_nat (length s)) b < adj_start (Z.of_nat (length s)) a).
+Proof. exact (fun s a b => conj (window_full s) (conj (fun st w => window_is_slice s a b st w) (window_none s a b))). Qed.
+Print Assumptions C04_str_window.
+
+(* find / rfind: the least / greatest offset of the window at which sub starts, plus the window start; -1 iff none *)
+Theorem C04_str_find : forall s sub a b,
+  match window s a b with
+  | None => py_find s sub a b = -1 /\ py_rfind s sub a b = -1
+  | Some (st, w) =>
+      (py_find s sub a b = -1 /\ py_rfind s sub a b = -1 /\
+       forall j, (j <= length w)%nat -> prefixb sub (skipn j w) = false) \/
+      (exists i k, py_find s sub a b = st + Z.of_nat i /\ py_rfind s sub a b = st + Z.of_nat k /\ (i <= k <= length w)%nat /\
+         prefixb sub (skipn i w) = true /\ prefixb sub (skipn k w) = true /\
+         (forall j, (j < i)%nat -> prefixb sub (skipn j w) = false) /\
+         (forall j, (k < j <= length w)%nat -> prefixb sub (skipn j w) = false))
+  end.
+Proof. exact py_find_spec. Qed.
+Print Assumptions C04_str_find.
+
+Theorem C04_str_prefix : forall p w, (prefixb p w = true <-> exists t, w = p ++ t) /\
+  (prefixb (rev p) (rev w) = true <-> exists t, w = t ++ p).
+Proof. exact (fun p w => conj (prefixb_iff p w) (suffix_iff p w)). Qed.
+Print Assumptions C04_str_prefix.
+
+(* index / rindex: find / rfind with ValueError for -1 *)
+Theorem C04_str_index : forall s sub a b,
+  (py_find s sub a b = -1 -> py_index s sub a b = Err ValueError) /\
+  (0 <= py_find s sub a b -> py_index s sub a b = Ok (py_find s sub a b)) /\
+  (py_rfind s sub a b = -1 -> py_rindex s sub a b = Err ValueError) /\
+  (0 <= py_rfind s sub a b -> py_rindex s sub a b = Ok (py_rfind s sub a b)) /\
+  (-1 <= py_find s sub a b) /\ (-1 <= py_rfind s sub a b).
+Proof. exact py_index_spec. Qed.
+Print Assumptions C04_str_index.
+
+(* count: one letter = the letter count used by gc/countall; '' = len + 1; 0 exactly when find gives -1 *)
+Theorem C04_str_count : forall s sub a b c,
+  py_count s [c] None None = Z.of_nat (count c s) /\
+  py_count s [] None None = Z.of_nat (length s) + 1 /\
+  (sub <> [] -> (py_count s sub None None = 0 <-> py_find s sub None None = -1)) /\
+  0 <= py_count s sub a b.
+Proof. exact (fun s sub a b c => conj (py_count_char s c) (conj (py_count_empty s) (conj (py_count_zero_iff s sub) (py_count_nonneg s sub a b)))). Qed.
+Print Assumptions C04_str_count.
+
+(* replace: one letter for one letter is a map; the length law; nothing to replace / count 0: unchanged *)
+Theorem C04_str_replace : forall s old new cnt a b,
+  py_replace s [a] [b] None = map (fun c => if byte_eqb a c then b else c) s /\
+  py_replace s [a] new None = flat_map (fun c => if byte_eqb a c then new else [c]) s /\
+  (old <> [] -> Z.of_nat (length (py_replace s old new None)) =
+                Z.of_nat (length s) + py_count s old None None * (Z.of_nat (length new) - Z.of_nat (length old))) /\
+  (old <> [] -> py_find s old None None = -1 -> py_replace s old new cnt = s) /\
+  py_replace s old new (Some 0) = s.
+Proof. exact (fun s old new cnt a b => conj (py_replace_char s a b) (conj (replace_in_char a new s)
+  (conj (py_replace_length s old new) (conj (py_replace_absent s old new cnt) (replace_lim0 old new s))))). Qed.
+Print Assumptions C04_str_replace.
+
+(* lstrip / rstrip / strip: the longest prefix / suffix of characters of the set is removed, nothing else *)
+Theorem C04_str_strip : forall s cs,
+  (exists l, s = l ++ py_lstrip s cs /\ forallb (strip_set cs) l = true /\
+     match py_lstrip s cs with [] => True | c :: _ => strip_set cs c = false end) /\
+  (exists t, s = py_rstrip s cs ++ t /\ forallb (strip_set cs) t = true /\
+     match rev (py_rstrip s cs) with [] => True | c :: _ => strip_set cs c = false end) /\
+  (exists l t, s = l ++ py_strip s cs ++ t /\ forallb (strip_set cs) l = true /\ forallb (strip_set cs) t = true /\
+     match py_strip s cs with [] => True | c :: _ => strip_set cs c = false end /\
+     match rev (py_strip s cs) with [] => True | c :: _ => strip_set cs c = false end).
+Proof. exact strip_spec. Qed.
+Print Assumptions C04_str_strip.
+
+(* ljust / rjust / center: padding on the right / left / both sides (sides differ by at most one), length max(w, len) *)
+Theorem C04_str_just : forall s w f,
+  py_ljust s w f = s ++ repeat (fill_of f) (Z.to_nat (w - Z.of_nat (length s))) /\
+  py_rjust s w f = repeat (fill_of f) (Z.to_nat (w - Z.of_nat (length s))) ++ s /\
+  (exists l r, py_center s w f = repeat (fill_of f) (Z.to_nat l) ++ s ++ repeat (fill_of f) (Z.to_nat r) /\
+     0 <= l /\ 0 <= r /\ l + r = Z.max (w - Z.of_nat (length s)) 0 /\ -1 <= l - r <= 1 /\
+     (Z.even (w - Z.of_nat (length s)) = true -> l = r)) /\
+  Z.of_nat (length (py_ljust s w f)) = Z.max w (Z.of_nat (length s)) /\
+  Z.of_nat (length (py_rjust s w f)) = Z.max w (Z.of_nat (length s)) /\
+  Z.of_nat (length (py_center s w f)) = Z.max w (Z.of_nat (length s)).
+Proof. exact just_spec. Qed.
+Print Assumptions C04_str_just.
+
+(* startswith / endswith on the window *)
+Theorem C04_str_tailmatch : forall s p a b,
+  match window s a b with
+  | None => py_startswith s p a b = false /\ py_endswith s p a b = false
+  | Some (_, w) => (py_startswith s p a b = true <-> exists t, w = p ++ t) /\
+                   (py_endswith s p a b = true <-> exists t, w = t ++ p)
+  end.
+Proof. exact tailmatch_spec. Qed.
+Print Assumptions C04_str_tailmatch.
+
+(* BioSeq.gc computes its five counts through self.str.count: the same numbers as the letter counts *)
+Theorem C04_gc_through_str : forall s,
+  seq_gc_counts s = (Z.of_nat (fst (gc_counts (data s))), Z.of_nat (snd (gc_counts (data s)))).
+Proof. exact seq_gc_counts_spec. Qed.
+Print Assumptions C04_gc_through_str.
+
+(* ==== round 6: every modelled edit / query of a BioSeq is the str operation on its residue string ==== *)
+Theorem C04_edit_like_str : forall e s,
+  seq_edit e s = match str_edit e (data s) with Ok d => Ok (mkseq d (sid s)) | Err x => Err x end.
+Proof. exact seq_edit_is_str_edit. Qed.
+Print Assumptions C04_edit_like_str.
+
+Theorem C04_query_like_str : forall q s, seq_query q s = str_query_run q (data s).
+Proof. exact seq_query_is_str_query. Qed.
+Print Assumptions C04_query_like_str.
+
+(* basket-level edits (seqs[:, j] = x, seqs.str.m(...)): the edit on every residue string, in order, ids kept *)
+Theorem C04_basket_edit : forall e b,
+  map data (fst (edit_all e b)) = fst (str_edit_all e (map data b)) /\
+  map sid (fst (edit_all e b)) = map sid b /\
+  snd (edit_all e b) = snd (str_edit_all e (map data b)) /\
+  length (fst (edit_all e b)) = length b /\
+  (forall r, mapM (str_edit e) (map data b) = Ok r -> str_edit_all e (map data b) = (r, None)).
+Proof. exact (fun e b => match edit_all_spec e b with conj H1 (conj H2 (conj H3 H4)) =>
+  conj H1 (conj H2 (conj H3 (conj H4 (str_edit_all_ok e (map data b))))) end). Qed.
+Print Assumptions C04_basket_edit.
+
+(* one step of a history over an object store *)
+Theorem C04_store_step : forall st h k q,
+  map data (fst (dstep_run st h)) = strs_step (map data st) h /\
+  map sid (fst (dstep_run st h)) = ids_step (map sid st) h /\
+  (length st <= length (fst (dstep_run st h)))%nat /\
+  dstep_run st (DQuery k q) =
+    (st, match nth_error (map data st) k with Some d => str_query_run q d | None => show_exc IndexError end).
+Proof. exact (fun st h k q => conj (dstep_data st h) (conj (dstep_ids st h) (conj (dstep_length st h) (dstep_query st k q)))). Qed.
+Print Assumptions C04_store_step.
+
+(* HISTORY THEOREM: after any list of modelled operations (edits, queries, duplications, basket-level edits) the
+   residue strings of all objects are the fold of the corresponding str / list operations; ids follow duplication *)
+Theorem C04_store_history : forall hs st,
+  map data (store_final st hs) = fold_left strs_step hs (map data st) /\
+  map sid (store_final st hs) = fold_left ids_step hs (map sid st) /\
+  (length st <= length (store_final st hs))%nat.
+Proof. exact store_history. Qed.
+Print Assumptions C04_store_history.
+
+(* what is recorded at step n is the step result on the store reached by the first n steps *)
+Theorem C04_store_run : forall hs st n h, length (store_run st hs) = length hs /\
+  (nth_error hs n = Some h ->
+   nth_error (store_run st hs) n =
+   Some (let p := dstep_run (store_final st (firstn n hs)) h in VL [snd p; show_basket (fst p)])).
+Proof. exact (fun hs st n h => conj (store_run_length hs st) (store_run_nth hs st n h)). Qed.
+Print Assumptions C04_store_run.
+
+(* an object keeps its value through every history that does not address it *)
+Theorem C04_store_frame : forall hs st j, (forall h, In h hs -> edits h j = false) -> (j < length st)%nat ->
+  nth_error (store_final st hs) j = nth_error st j.
+Proof. exact store_frame. Qed.
+Print Assumptions C04_store_frame.
+
+(* duplicates are independent values *)
+Theorem C04_dup_independent : forall st k s hs, nth_error st k = Some s ->
+  ((forall h, In h hs -> edits h (length st) = false) ->
+     nth_error (store_final st (DDup k :: hs)) (length st) = Some s) /\
+  ((forall h, In h hs -> edits h k = false) ->
+     nth_error (store_final st (DDup k :: hs)) k = Some s).
+Proof. exact dup_independent. Qed.
+Print Assumptions C04_dup_independent.
+
+Theorem C04_store_eq : forall st k j s t, nth_error st k = Some s -> nth_error st j = Some t ->
+  dstep_run st (DEqObj k j) = (st, VB (str_eqb (data s) (data t) && str_eqb (sid s) (sid t))).
+Proof. exact dstep_eqobj. Qed.
+Print Assumptions C04_store_eq.
+
+(* letter counts over the objects of the store after a history: counts of the concatenated str history *)
+Theorem C04_store_countall : forall st hs, store_final st hs <> [] ->
+  exists k, snd (dstep_run (store_final st hs) DCountall) = show_counter k /\
+    forall c, k c = count c (concat (fold_left strs_step hs (map data st))).
+Proof. exact store_countall. Qed.
+Print Assumptions C04_store_countall.
+
+Theorem C04_store_probabilities : forall st hs k, countall (store_final st hs) = Ok k ->
+  (0 < length (concat (fold_left strs_step hs (map data st))))%nat ->
+  (forall c, (prob_of k c == Z.of_nat (count c (concat (fold_left strs_step hs (map data st)))) #
+                             Pos.of_nat (length (concat (fold_left strs_step hs (map data st)))))%Q) /\
+  (fold_right Qplus 0%Q (map (prob_of k) all_bytes) == 1)%Q.
+Proof. exact store_probabilities. Qed.
+Print Assumptions C04_store_probabilities.
+
+(* seq['type']: the FIRST feature whose type EQUALS the name up to ASCII case (same length, never a proper
+   substring) decides; its residues are the (gap-aware) str slice; ValueError when there is none *)
+Theorem C04_ft_first_exact : forall gap s fts name,
+  match ft_get fts name with
+  | Some (a, b) =>
+      (exists pre t post, fts = pre ++ (Some t, (a, b)) :: post /\ lower_eq t name = true /\ length t = length name /\
+         forall x, In x pre -> match fst x with None => True | Some t' => lower_eq t' name = false end) /\
+      seq_getitem_type gap s fts name =
+        match seq_getitem gap s (ISlice (mkslice (Some a) (Some b) None)) with Ok r => Ok r | Err e => Err e end
+  | None => (forall x, In x fts -> match fst x with None => True | Some t' => lower_eq t' name = false end) /\
+            seq_getitem_type gap s fts name = Err ValueError
+  end /\ (forall t, lower_eq t name = true <-> py_lower t = py_lower name).
+Proof. exact (fun gap s fts name => conj
+  (match ft_get fts name as o return
+     match o with Some loc => exists pre t post, fts = pre ++ (Some t, loc) :: post /\ lower_eq t name = true /\
+                    forall x, In x pre -> match fst x with None => True | Some t' => lower_eq t' name = false end
+               | None => forall x, In x fts -> match fst x with None => True | Some t' => lower_eq t' name = false end end ->
+     match o with
+     | None => seq_getitem_type gap s fts name = Err ValueError
+     | Some (a, b) => seq_getitem_type gap s fts name =
+         match seq_getitem gap s (ISlice (mkslice (Some a) (Some b) None)) with Ok r => Ok r | Err e => Err e end
+     end ->
+     match o with
+     | Some (a, b) =>
+        (exists pre t post, fts = pre ++ (Some t, (a, b)) :: post /\ lower_eq t name = true /\ length t = length name /\
+           forall x, In x pre -> match fst x with None => True | Some t' => lower_eq t' name = false end) /\
+        seq_getitem_type gap s fts name =
+          match seq_getitem gap s (ISlice (mkslice (Some a) (Some b) None)) with Ok r => Ok r | Err e => Err e end
+     | None => (forall x, In x fts -> match fst x with None => True | Some t' => lower_eq t' name = false end) /\
+               seq_getitem_type gap s fts name = Err ValueError
+     end
+   with
+   | Some (a, b) => fun H1 H2 => conj (match H1 with ex_intro _ pre (ex_intro _ t (ex_intro _ post (conj Ha (conj Hb Hc)))) =>
+        ex_intro _ pre (ex_intro _ t (ex_intro _ post (conj Ha (conj Hb (conj (lower_eq_length t name Hb) Hc))))) end) H2
+   | None => fun H1 H2 => conj H1 H2
+   end (ft_get_spec name fts) (seq_getitem_type_spec gap s fts name))
+  (fun t => lower_eq_iff t name)). Qed.
+Print Assumptions C04_ft_first_exact.
+
 (* ---- non-vacuity ---- *)
 Example C04_witness_slice : getslice (bs "A-CG--T"%bs) (mkslice (Some (-5)) (Some 9) None) = Ok (bs "CG--T"%bs) /\
   getslice (bs "ACGTN"%bs) (mkslice (Some 9) (Some (-9)) (Some (-2))) = Ok (bs "NGA"%bs) /\
@@ -335,3 +574,37 @@ Example C04_witness_extended :
     = Ok [mkseq (bs "xC"%bs) (bs "s0"%bs); mkseq (bs "GG"%bs) (bs "s1"%bs); mkseq (bs "xT"%bs) (bs "s2"%bs)] /\
   (gc_fraction (bs "GGCA-N"%bs) == 3 # 4)%Q.
 Proof. exact (conj eq_refl (conj eq_refl (conj eq_refl (conj eq_refl eq_refl)))). Qed.
+
+(* round 6 *)
+Example C04_witness_str :
+  py_find (bs "ACgttGCA"%bs) (bs "G"%bs) None None = 5 /\ py_rfind (bs "ACGTACGT"%bs) (bs "T"%bs) (Some (-5)) (Some (-1)) = 3 /\
+  py_count (bs "AAAA"%bs) (bs "AA"%bs) None None = 2 /\ py_count (bs "AAAA"%bs) [] (Some 1) None = 4 /\
+  py_index (bs "ACGT"%bs) (bs "GG"%bs) None None = Err ValueError /\
+  py_find (bs "abc"%bs) [] (Some 4) None = -1 /\
+  py_replace (bs "ACGTACGA"%bs) (bs "AC"%bs) [] (Some 2) = bs "GTGA"%bs /\
+  py_replace (bs "AAAA"%bs) [] (bs "-"%bs) (Some 2) = bs "-A-AAA"%bs /\
+  py_center (bs "AC"%bs) 5 (Some "-"%byte) = bs "--AC-"%bs /\ py_center (bs "ACG"%bs) 6 (Some "-"%byte) = bs "-ACG--"%bs /\
+  py_strip (bs "-.AC.-"%bs) (Some (bs ".-"%bs)) = bs "AC"%bs /\ py_swapcase (bs "ACgt-"%bs) = bs "acGT-"%bs /\
+  py_endswith (bs "ACGT"%bs) (bs "CG"%bs) (Some 0) (Some 3) = true /\ py_islower (bs "acg-"%bs) = true.
+Proof. exact (conj eq_refl (conj eq_refl (conj eq_refl (conj eq_refl (conj eq_refl (conj eq_refl (conj eq_refl (conj eq_refl (conj eq_refl (conj eq_refl (conj eq_refl (conj eq_refl (conj eq_refl (eq_refl)))))))))))))). Qed.
+
+Example C04_witness_store :
+  (* lower case written by item assignment; duplicate; edit the duplicate; the source is untouched *)
+  store_final (mk_store [bs "ACGTTGCA"%bs])
+    [DEdit 0 (ESet (ISlice (mkslice (Some 2) (Some 5) None)) (bs "gtt"%bs)); DDup 0;
+     DEdit 1 (EReplace (bs "G"%bs) (bs "N"%bs) None); DEdit 1 ESwapcase]
+  = [mkseq (bs "ACgttGCA"%bs) (bs "o0"%bs); mkseq (bs "acGTTnca"%bs) (bs "o0"%bs)] /\
+  snd (dstep_run [mkseq (bs "ACgttGCA"%bs) (bs "o0"%bs)] (DQuery 0 (QCount (bs "g"%bs) None None))) = VI 1 /\
+  snd (dstep_run [mkseq (bs "ACgttGCA"%bs) (bs "o0"%bs)] (DQuery 0 QGc)) = VL [VI 3; VI 5] /\
+  edits (DEdit 1 ESwapcase) 0 = false.
+Proof. exact (conj eq_refl (conj eq_refl (conj eq_refl (eq_refl)))). Qed.
+
+Example C04_witness_ft :
+  ft_get [(Some (bs "gene"%bs), (0, 18)); (None, (3, 5)); (Some (bs "pseudogene"%bs), (4, 10)); (Some (bs "RNA"%bs), (1, 5));
+          (Some (bs "mRNA"%bs), (12, 20))] (bs "PseudoGene"%bs) = Some (4, 10) /\
+  ft_get [(Some (bs "RNA"%bs), (1, 5)); (Some (bs "mRNA"%bs), (12, 20))] (bs "mrna"%bs) = Some (12, 20) /\
+  ft_get [(Some (bs "RNA"%bs), (1, 5)); (Some [], (2, 4))] (bs "tRNA"%bs) = None /\
+  seq_getitem_type None (mk false (bs "ACGTTGCAAGGCTTAACCGG"%bs))
+    [(Some (bs "gene"%bs), (0, 18)); (Some (bs "pseudogene"%bs), (4, 10))] (bs "pseudogene"%bs)
+  = Ok (mkseq (bs "TGCAAG"%bs) (bs "x"%bs)).
+Proof. exact (conj eq_refl (conj eq_refl (conj eq_refl (eq_refl)))). Qed.
